@@ -33,6 +33,18 @@ type C12Op struct {
 type C12Case struct {
 	Init []*m.Journal `json:"init"` // file i is gen.WSNames[i]
 	Ops  []C12Op      `json:"ops"`
+	// include limits in force from the start, for the workspace under test and for the fresh one
+	// (0: the default): a file deeper than Depth, or longer than MaxSize bytes, is no member
+	Depth   int `json:"depth,omitempty"`
+	MaxSize int `json:"max_size,omitempty"`
+}
+
+func (c *C12Case) loader() *include.Loader {
+	l := include.NewLoader()
+	if c.Depth > 0 || c.MaxSize > 0 {
+		l.SetLimits(include.Limits{MaxIncludeDepth: c.Depth, MaxFileSizeBytes: int64(c.MaxSize)})
+	}
+	return l
 }
 
 func txEntryKeys(es []workspace.TransactionEntry) []string {
@@ -271,7 +283,7 @@ func c12Check(c *C12Case) (ds []ev.Discrepancy, cls []string) {
 		cur[i] = c.Init[i]
 		write(i)
 	}
-	loader := include.NewLoader()
+	loader := c.loader()
 	inc := workspace.NewWorkspace(root, loader)
 	if err := inc.Initialize(); err != nil {
 		return []ev.Discrepancy{ev.D("c12.harness", "initialize: %v", err)}, nil
@@ -290,13 +302,17 @@ func c12Check(c *C12Case) (ds []ev.Discrepancy, cls []string) {
 		if includesOf(cur[op.File]) != includesOf(op.Journal) {
 			classes["include-list-changed"] = true
 		}
+		before := len(m.Render(cur[op.File]).Text)
 		cur[op.File] = op.Journal
 		txt := write(op.File)
+		if c.MaxSize > 0 && (before > c.MaxSize) != (len(txt) > c.MaxSize) {
+			classes["update-crosses-size-limit"] = true
+		}
 		path := filepath.Join(root, gen.WSNames[op.File])
 		// what didChange / didSave do
 		inc.UpdateFile(path, txt)
 		loader.InvalidateFile(path)
-		fresh := workspace.NewWorkspace(root, include.NewLoader())
+		fresh := workspace.NewWorkspace(root, c.loader())
 		if err := fresh.Initialize(); err != nil {
 			return []ev.Discrepancy{ev.D("c12.harness", "fresh initialize: %v", err)}, keys(classes)
 		}
@@ -307,6 +323,12 @@ func c12Check(c *C12Case) (ds []ev.Discrepancy, cls []string) {
 	}
 	if len(c.Ops) >= 2 {
 		classes["updates>=2"] = true
+	}
+	if c.Depth > 0 {
+		classes["depth-limit"] = true
+	}
+	if c.MaxSize > 0 {
+		classes["size-limit"] = true
 	}
 	return ds, keys(classes)
 }
@@ -384,6 +406,25 @@ func TestC12(t *testing.T) {
 			}
 			cur[f] = j
 			c.Ops = append(c.Ops, C12Op{File: f, Journal: j})
+		}
+		if !disabled("c12.limits") {
+			switch rapid.IntRange(0, 5).Draw(t, "limits") {
+			case 0:
+				c.Depth = rapid.IntRange(1, 4).Draw(t, "depth")
+			case 1:
+				// a size that some of the texts exceed and others do not
+				var sizes []int
+				for _, j := range c.Init {
+					sizes = append(sizes, len(m.Render(j).Text))
+				}
+				for _, op := range c.Ops {
+					sizes = append(sizes, len(m.Render(op.Journal).Text))
+				}
+				c.MaxSize = rapid.SampledFrom(sizes).Draw(t, "maxsize")
+			case 2:
+				c.Depth = rapid.IntRange(2, 3).Draw(t, "depth2")
+				c.MaxSize = len(m.Render(c.Init[rapid.IntRange(0, n-1).Draw(t, "sizeof")]).Text)
+			}
 		}
 		ds, cls := c12Check(c)
 		nt := false
